@@ -274,7 +274,9 @@ class MemoryFileSystem(FileSystem):
     file = self._locate(path)
     if isinstance(file, dict):
       raise IsADirectoryError(path)
-    if 'w' in mode and file is None:
+    # NOTE: 'w' always starts from an empty file (an existing file is
+    # truncated), and 'a' creates the file if it does not exist.
+    if 'w' in mode or ('a' in mode and file is None):
       parent_dir, name = self._parent_and_name(path)
       if isinstance(parent_dir, dict):
         buffer = io.BytesIO() if 'b' in mode else io.StringIO()
@@ -283,6 +285,9 @@ class MemoryFileSystem(FileSystem):
 
     if file is None:
       raise FileNotFoundError(path)
+    if 'a' in mode:
+      # Append to the end of the file.
+      file.seek(0, 2)
     return file
 
   def chmod(self, path: Union[str, os.PathLike[str]], mode: int) -> None:
